@@ -46,7 +46,7 @@ func gen(tier string, seed int64) []hx.Scenario {
 					out = append(out, hx.Scenario{Name: "dss", Cfg: fmt.Sprintf("n=%d t=%d signers=%v keys=poly", n, t, o), Run: func(x *hx.Ctx) { honest(x, n, t, o, false) }})
 				}
 			}
-			for _, f := range []string{"value+d", "forged-sig", "other-session", "duplicate", "bigidx", "idx-swapped", "unsigned", "other-msg", "own-again"} {
+			for _, f := range []string{"value+d", "forged-sig", "other-session", "duplicate", "bigidx", "idx-swapped", "unsigned", "other-msg", "own-again", "late-value+d", "late-forged"} {
 				out = append(out, hx.Scenario{Name: "dss-fault", Cfg: fmt.Sprintf("n=%d t=%d fault=%s", n, t, f), Run: func(x *hx.Ctx) { fault(x, n, t, f) }})
 			}
 		}
@@ -257,6 +257,39 @@ func fault(x *hx.Ctx, n, t int, kind string) {
 			x.Err("index of another participant, signed by the insider", d.ProcessPartialSig(bad))
 			resign(bad, w.ps[1].priv)
 			x.Err("value of participant n-1 submitted by participant 1", d.ProcessPartialSig(bad))
+		}
+	case "late-value+d", "late-forged":
+		// the combiner (the participant with the HIGHEST index) already holds t valid partials when a bad partial
+		// with the LOWEST free index arrives: it must be rejected and must not displace a verified partial
+		if n >= 2 {
+			comb := w.newDSS(x, n-1, msg)
+			_, err := comb.PartialSig()
+			x.NoErr("combiner PartialSig", err)
+			var goodOnes []*dss.PartialSig
+			for j := n - 2; j >= 0 && len(goodOnes) < t-1; j-- {
+				dj := w.newDSS(x, j, msg)
+				pj, _ := dj.PartialSig()
+				x.NoErr("combiner accepts valid partial", comb.ProcessPartialSig(pj))
+				goodOnes = append(goodOnes, pj)
+			}
+			free := n - 1 - len(goodOnes) - 1 // lowest index not yet used (if any)
+			if comb.EnoughPartialSig() && free >= 0 {
+				before, err := comb.Signature()
+				x.NoErr("signature before the late partial", err)
+				df := w.newDSS(x, free, msg)
+				pf, _ := df.PartialSig()
+				late := &dss.PartialSig{Partial: &share.PriShare{I: pf.Partial.I, V: s.Scalar().Add(pf.Partial.V, s.Scalar().Pick(s.RandomStream()))}, SessionID: pf.SessionID}
+				if kind == "late-value+d" {
+					resign(late, w.ps[free].priv)
+				} else {
+					resign(late, s.Scalar().Pick(s.RandomStream()))
+				}
+				x.Err("bad partial arriving after the threshold is rejected", comb.ProcessPartialSig(late))
+				after, err := comb.Signature()
+				x.NoErr("signature after the late partial", err)
+				x.Require("late bad partial does not change the signature", bytes.Equal(before, after))
+				x.NoErr("signature still verifies", schnorr.Verify(s, w.long[0].Public(), msg, after))
+			}
 		}
 	case "own-again":
 		mine, err := d.PartialSig()
